@@ -647,7 +647,7 @@ package leveldb
 //@   props C06 C03 C01
 //@   abstract keys
 //@   safety off
-//@   at before stmt snapResumed := b.snapIter > 0
+//@   at entry
 //@     ghost gCurOK = false
 //@     ghost gSeen = false
 //@   at call parseInternalKey#1
@@ -708,10 +708,6 @@ package leveldb
 // ---------------------------------------------------------------------------
 // C20: buffers do not cross the API boundary.
 // A batch record is a copy: the batch does not point into the caller's key / value and does not touch them.
-//@ interface binary.PutUvarint
-//@   params buf []byte, x uint64
-//@   ensures result >= 1 && result <= 10
-//@   modifies buf[:len(buf)]
 //@ func (*Batch).grow
 //@   props C20
 //@   safety off
